@@ -902,7 +902,9 @@ pub trait StoreFor<T: Storable>: Configurable + private::StoreCallbacks<T> {
             if idmap.resolve_temp_ids && id.starts_with(T::temp_id_prefix()) {
                 if let Some(intid) = resolve_temp_id(id) {
                     let handle = T::HandleType::new(intid);
-                    if handle.as_usize() == intid {
+                    if handle.as_usize() == intid
+                        && matches!(self.store().get(intid), Some(Some(_)))
+                    {
                         return Ok(handle);
                     }
                 }
